@@ -1996,6 +1996,18 @@ def grid_legs(ctx, P, spec, rng):
     return True
 
 
+# more than three Cartesian axes: the coordinate names change from `x, y, z` to `a, b, c, ...` (leg `instance` only)
+HIGHDIM_GRIDS = [
+    {"cls": "unit", "shape": [1, 2, 1, 2], "periodic": [True, False, True, False], "mode": "dyadic",
+     "style": {"shape": "list", "periodic": "list"}},
+    {"cls": "unit", "shape": [2, 1, 1, 2, 3], "periodic": [False, False, True, False, True], "mode": "dyadic",
+     "style": {"shape": "tuple", "periodic": "tuple"}},
+    {"cls": "cartesian", "bounds": [[0.0, 1.0], [-1.0, 1.0], [0.0, 2.0], [0.5, 1.5]], "shape": [2, 1, 2, 1],
+     "periodic": [False, True, False, False], "mode": "dyadic",
+     "style": {"shape": "list", "periodic": "list", "bounds": "list", "num": "float"}},
+]
+
+
 REGRESSION_FROMDATA = [
     # F8 (fixed 2bf9c99): scalar/vector/tensor mix on grids with symmetric axes
     ("polar", {"classes": ["scalar", "vector", "tensor2", "scalar"], "with_ghost": True, "label": None, "labels": None,
@@ -2053,6 +2065,11 @@ def run(ctx):
         sspec = small(spec, rng)
         fd = dict(fd, grid=sspec)
         _guard(ctx, "fromdata", sspec, lambda: leg_fromdata(ctx, P, fd, 1), extra={"fromdata": fd, "salt": 1})
+    for spec in HIGHDIM_GRIDS:
+        ctx.hist("stream", "high-dimensional")
+        for _ in range(4):
+            plan = gen_plan(rng, spec)
+            _guard(ctx, "instance", spec, lambda: leg_instance(ctx, P, spec, plan), extra={"plan": plan})
     for i in range(n_grids):
         cls = CLASSES[i % len(CLASSES)]
         mode = "dyadic" if rng.random() < 0.5 else "decimal"
